@@ -215,6 +215,8 @@ pub struct Adv {
     pub ep: quinn::Endpoint,
     pub addr: SocketAddr,
     pub client: quinn::ClientConfig,
+    /// the same client configuration, sending no server name in its hello
+    pub client_no_sni: quinn::ClientConfig,
     pub sni_seen: Arc<Mutex<Vec<Option<String>>>>,
     pub peer_certs_seen: Arc<Mutex<Vec<Vec<u8>>>>,
     pub rt: Arc<SimRuntime>,
@@ -257,8 +259,12 @@ pub fn adv_endpoint_signing(w: &World, spec: AdvSpec, mislabel: Option<rustls::S
     transport.keep_alive_interval(spec.keep_alive_ms.map(std::time::Duration::from_millis));
     transport.max_concurrent_bidi_streams(spec.max_bidi.into());
     let transport = Arc::new(transport);
+    let mut crypto_no_sni = client_crypto.clone();
+    crypto_no_sni.enable_sni = false;
     let mut client = quinn::ClientConfig::new(Arc::new(quinn::crypto::rustls::QuicClientConfig::try_from(client_crypto).unwrap()));
     client.transport_config(transport.clone());
+    let mut client_no_sni = quinn::ClientConfig::new(Arc::new(quinn::crypto::rustls::QuicClientConfig::try_from(crypto_no_sni).unwrap()));
+    client_no_sni.transport_config(transport.clone());
     let server_crypto = rustls::ServerConfig::builder_with_provider(provider)
         .with_protocol_versions(&[&rustls::version::TLS13])
         .unwrap()
@@ -276,6 +282,7 @@ pub fn adv_endpoint_signing(w: &World, spec: AdvSpec, mislabel: Option<rustls::S
         ep,
         addr,
         client,
+        client_no_sni,
         sni_seen,
         peer_certs_seen,
         rt,
@@ -286,9 +293,18 @@ impl Adv {
     /// Dial `to` claiming `sni`; on success wait for anemo's acknowledgement (uni stream with the
     /// 8-byte version frame), which is what tells a dialer that the listener admitted it.
     pub async fn dial(&self, to: SocketAddr, sni: &str, ack_wait_ms: u64) -> Result<quinn::Connection, String> {
+        self.dial_with(self.client.clone(), to, sni, ack_wait_ms).await
+    }
+
+    /// Dial without a server name in the hello (the name is only used locally by rustls).
+    pub async fn dial_no_sni(&self, to: SocketAddr, ack_wait_ms: u64) -> Result<quinn::Connection, String> {
+        self.dial_with(self.client_no_sni.clone(), to, "no-sni.invalid", ack_wait_ms).await
+    }
+
+    pub async fn dial_with(&self, cfg: quinn::ClientConfig, to: SocketAddr, sni: &str, ack_wait_ms: u64) -> Result<quinn::Connection, String> {
         let c = self
             .ep
-            .connect_with(self.client.clone(), to, sni)
+            .connect_with(cfg, to, sni)
             .map_err(|e| format!("connect: {e}"))?
             .await
             .map_err(|e| format!("handshake: {e}"))?;
